@@ -38,6 +38,7 @@ ScOf(j) == [single   |-> [n \in Node |-> ToSet(j.single[n])],
             late     |-> [n \in Node |-> j.late[n]],
             prewire  |-> [n \in Node |-> ToSet(j.prewire[n])],
             once     |-> [n \in Node |-> j.once[n]],
+            ptr      |-> [n \in Node |-> {j.single[n][i] : i \in {k \in 1..Len(j.single[n]) : j.kinds[n][k] # "name-iface"}}],
             ilook    |-> [n \in Node |-> j.ilook[n]],
             sparse   |-> j.sparse]
 
